@@ -31,6 +31,7 @@ def check(cx):
         'R18.2 no state-lock acquisition (direct or through a callee) while a guard is live',
         'R18.3 every membership/presence fact in the path condition of a state effect was queried under the same write guard as the effect (no check released before the act)',
         'R18.4 one task per accepted connection, one event per loop iteration, replies appended to the per-connection buffer and flushed in order after every event; each user queue has a single consumer',
+        'R18.6 simultaneous claims to one nickname: the registry insert and its "nick free" check share one write guard, and the loser is not left marked as registered (shared rules C02 R2.2/R2.3)',
         'R18.5 no socket/timer await under a state guard (C05 R5.2); CPU awaits under the guard are listed as observations',
     ]
     ck.does_not_decide += ['linearizability of arbitrary interleavings as such', 'fairness of tokio\'s RwLock and scheduler, real-time bounds']
@@ -146,6 +147,12 @@ def check(cx):
     r4.instance('user queue consumers: %d' % len(recvs))
     if len(recvs) != 1 or not recvs[0][0].startswith(pi):
         r4.violation('queue|consumers', 'a user queue is not consumed by exactly one place (the owner\'s select loop)', loc=pi)
+
+    # ---------------------------------------------------------------- R18.6
+    from .C02 import rule_insert_checked, rule_auth_implies_registered
+    r6 = cx.rule('R18.6', 'one winner per nickname', floor=4, kind='required-guard')
+    rule_insert_checked(cx, r6)
+    rule_auth_implies_registered(cx, r6)
 
     # ---------------------------------------------------------------- R18.5
     r5 = cx.rule('R18.5', 'awaits under a guard', floor=50, kind='effect')
